@@ -810,6 +810,14 @@ func (ex *Exec) depGlobal(g *ssa.Global, loc *Value) bool {
 		return true
 	}
 	switch g.String() {
+	case "net/netip.z0":
+		return true // the zero handle
+	case "net/netip.z4", "net/netip.z6noz":
+		// unique.Handle[addrDetail]{value: &addrDetail{isV6, zoneV6}}: two distinct canonical objects
+		inner := new(Value)
+		*inner = Struct{ex.C.Bool(g.String() == "net/netip.z6noz"), ""}
+		*loc = Struct{Ptr{Loc: inner}}
+		return true
 	case "net.IPv4zero":
 		*loc = ex.bytesSlice([]byte{0, 0, 0, 0})
 		return true
